@@ -518,8 +518,8 @@ class FakeMP:
             self.daemon = True
 
         def join(self, timeout=None):
-            # virtual time: the library's 10 s grace period is not waited out for real
-            super().join(None if timeout is None else min(timeout, 2.0))
+            # the library's own grace period (10 s) is kept: a shorter one could report a live worker under heavy load
+            super().join(timeout)
 
         def kill(self):
             pass
